@@ -47,10 +47,8 @@ fn fix_ident_conflicts(sig: &mut syn::Signature) -> ParamStatus {
                     param_ident.subpat = None;
 
                     if param_ident.ident == fn_ident_string {
-                        param_ident.ident = syn::Ident::new(
-                            &format!("{}_", param_ident.ident),
-                            param_ident.ident.span(),
-                        );
+                        // format_ident handles raw identifiers (`r#match` -> `r#match_`)
+                        param_ident.ident = quote::format_ident!("{}_", param_ident.ident);
                     }
 
                     ParamStatus::Ok
